@@ -22,8 +22,10 @@ N_VALUES = [(1, True), (2, True), (7, True), (1000, True), (0, False), (-1, Fals
             # integers that no float holds exactly must be accepted and reported back unchanged
             (2 ** 53 + 1, True), (10 ** 23, True), (10 ** 400, True)]
 EXP_BASES = [(0.5, True), (1, True), (1.0, True), (2, True), (E, True), (10.0, True), (1e-9, True), (1e-300, True),
+             (10 ** 400, True), (2 ** 53 + 1, True),
              (0, False), (0.0, False), (-1, False), (-0.5, False), (-E, False)]
 LOG_BASES = [(0.5, True), (2, True), (E, True), (10.0, True), (1e-9, True), (1 + 1e-12, True), (1 - 1e-12, True),
+             (10 ** 400, True), (2 ** 53 + 1, True),
              (1e-300, True), (1, False), (1.0, False),
              (0, False), (0.0, False), (-1, False), (-0.5, False)]
 NAMES = [("x", True), ("x1", True), ("_a", True), ("9", True), ("long_name_2", True), ("αβ", True),
